@@ -110,7 +110,7 @@ func (g *genState) name() string {
 func (g *genState) sub() string {
 	if g.cfg.Subs && g.r.Chance(1, 3) {
 		if g.r.Chance(1, 8) {
-			return Subs[3+g.r.Intn(4)] // an oddity: "S1", "p%d", "k=v", and "k" (a prefix of the former up to its equals sign)
+			return Subs[3+g.r.Intn(5)] // an oddity: "S1", "p%d", "k=v", "k" (a prefix of the former up to its equals sign), "t " (trailing blank)
 		}
 		return Subs[g.r.Intn(2)]
 	}
@@ -352,6 +352,9 @@ func (g *genState) compatible(p Label, structForm bool) Label {
 		s = Label{Type: im[r.Intn(len(im))]}
 		if p.Name != "" && p.Sub == "" && structForm && r.Chance(1, 3) {
 			s.Name = p.Name // a same-named value of an implementing type
+			if g.cfg.Subs && r.Chance(1, 3) {
+				s.Sub = Subs[r.Intn(2)] // "any subtype when the parameter does not specify one"
+			}
 			return s
 		}
 		if !structForm || r.Chance(1, 2) {
